@@ -32,6 +32,10 @@ THEOREMS = [
     "C01_rerun_is_fresh",
     "C01_rerun",
     "C01_rerun_pinned_witness",
+    "C01_nest_order",
+    "C01_nest_at_most_once",
+    "C01_nest_once",
+    "C01_nest_once_reach",
 ]
 RULE = (
     "random acyclic data graphs over 2..N term nodes (function nodes, and macros wrapping the same function with the "
